@@ -94,6 +94,17 @@ func NamedConf(name string) *Conf {
 			{Path: "root.r.s", Guar: r1("memory", 2)},
 			{Path: "root.r.t", Props: map[string]string{"preemption.policy": "disabled"}},
 		}}
+	case "pre4": // the parent's maximum binds before the nodes do; one victim queue is guaranteed in two resource types
+		c = &Conf{Valid: true, Preemption: true, Queues: []QConf{
+			{Path: "root.p", Parent: true, Max: r2("memory", 8, "pods", 8)},
+			{Path: "root.p.x", Guar: r1("memory", 3)},
+			{Path: "root.p.y", Guar: r2("memory", 3, "pods", 1)},
+			{Path: "root.p.z"},
+			{Path: "root.f", Parent: true, Props: map[string]string{"preemption.policy": "fence"}},
+			{Path: "root.f.u", Guar: r1("memory", 2)},
+			{Path: "root.f.v"},
+			{Path: "root.nop", Props: map[string]string{"preemption.policy": "disabled"}},
+		}}
 	case "pre3": // askers below negative priority offsets, victims behind priority fences with positive offsets
 		c = &Conf{Valid: true, Preemption: true, Queues: []QConf{
 			{Path: "root.p", Parent: true, Guar: r1("memory", 6)},
@@ -134,6 +145,16 @@ func NamedConf(name string) *Conf {
 			{Path: "root.p.x"},
 			{Path: "root.p.y", Limits: []LimitConf{{Users: []string{"u1"}, Max: r1("memory", 1), MaxApps: 1}}},
 		}}
+	case "dyn2": // as dyn, the template forbids one resource type outright (maximum 0) and guarantees another
+		c = NamedConf("dyn")
+		for i := range c.Queues {
+			if c.Queues[i].Path == "root.d" {
+				c.Queues[i].TmplMax = r2("memory", 3, "pods", 0)
+				c.Queues[i].TmplGuar = r1("memory", 1)
+			}
+		}
+		c.Name = name
+		return c
 	case "dyn":
 		c = &Conf{Valid: true, Queues: []QConf{
 			{Path: "root", SubmitACL: "*"},
